@@ -437,7 +437,7 @@ func normalizeDomainpart(domainpart string) (string, error) {
 	//
 	// Per EID 4534 this is actually talking about RFC 5895.
 	var err error
-	domainpart, err = idna.Display.ToUnicode(domainpart)
+	domainpart, err = toUnicode(domainpart)
 	if err != nil {
 		return domainpart, err
 	}
@@ -453,4 +453,20 @@ func normalizeDomainpart(domainpart string) (string, error) {
 	}
 
 	return domainpart, nil
+}
+
+// toUnicode converts a domainpart to its Unicode form like
+// idna.Display.ToUnicode and makes sure that the result is a valid domain name
+// in its own right.
+// ToUnicode decides whether the Bidi Rule has to be checked by looking at the
+// code points before they are mapped, so a code point that only becomes
+// right-to-left by being mapped (eg. U+2135 ALEF SYMBOL which is mapped to
+// U+05D0 HEBREW LETTER ALEF) would otherwise give us a domainpart that is
+// rejected when it is parsed again.
+func toUnicode(domainpart string) (string, error) {
+	mapped, err := idna.Display.ToUnicode(domainpart)
+	if err != nil || mapped == domainpart {
+		return mapped, err
+	}
+	return idna.Display.ToUnicode(mapped)
 }
